@@ -193,6 +193,33 @@ def checkTV (oc : Bool) (pre opT outT postT : List String) : Option (List String
       v := (if cls == .panic then "UNSAT C04" else "UNSAT C01") :: "UNSAT C03" :: v
     if cls == .ok && allocs != 0 then v := "UNSAT C18" :: v
     return (v, b.len != 0 && lens.any (· != 0))
+  | [wfa, sl], [c, _n, a] =>
+    -- `write_fmt` with these pieces / `write_all` of one piece
+    if wfa != "wf" && wfa != "wa" then none else
+    let pieces ← if wfa == "wa" then (unhex? sl).map (fun d => [d]) else slices? sl
+    let cls ← cls? c
+    let allocs ← a.toNat?
+    let io : Out := { cls := cls }
+    let (b', mo) := stepWF oc b pieces
+    let mut v : List String := []
+    if !(mo.cls == io.cls && b'.obs == ip) then v := "DRIFT" :: v
+    if !Sat_WF b pieces io ip then
+      v := (if cls == .panic then "UNSAT C04" else "UNSAT C01") :: "UNSAT C03" :: v
+    if cls == .ok && allocs != 0 then v := "UNSAT C18" :: v
+    return (v, !pieces.flatten.isEmpty)
+  | ["re", ds], [c, _n, a, dest] =>
+    let d ← ds.toNat?
+    let dest ← unhex? dest
+    let cls ← cls? c
+    let allocs ← a.toNat?
+    let io : Out := { cls := cls }
+    let (b', mo) := stepRE oc b d
+    let mut v : List String := []
+    if !(mo.cls == io.cls && mo.bytes == dest && b'.obs == ip) then v := "DRIFT" :: v
+    if !Sat_RE b d dest io ip then
+      v := (if cls == .panic then "UNSAT C04" else "UNSAT C01") :: "UNSAT C03" :: v
+    if cls == .ok && allocs != 0 then v := "UNSAT C18" :: v
+    return (v, b.len != 0 && d != 0)
   | _, _ => none
 
 end FBV.DrvT1
